@@ -159,4 +159,17 @@ def inline_unknown(facts, baseline=None):
                 b += 1
         if not changed:
             break
+    # a helper that has been made transparent everywhere is no longer a separate unit of analysis
+    inlined = {c for _, c in done}
+    still_called = set()
+    for dp, f in fns.items():
+        for blk in f['mir']['blocks']:
+            t = blk['term']
+            if t['k'] == 'call' and 'path' in t['f']:
+                tgt = t['f'].get('res', t['f'])
+                if tgt.get('dp') in inlined and dp not in inlined:
+                    still_called.add(tgt['dp'])
+    drop = {dp for dp in inlined if dp not in still_called and not fns[dp].get('exported')}
+    if drop:
+        facts['fns'] = [f for f in facts['fns'] if f['dp'] not in drop]   # closures of a dropped helper stay: the spliced body refers to them
     return facts, done
